@@ -57,7 +57,7 @@ REQUIRED_COUNTERS = [
     'obs:plain-twin-unscaled', 'hook:scale_to_norm', 'hook:scale_to_phys',
     'obs:values-compared', 'obs:inputs-compared', 'obs:totals-compared', 'obs:twin-vs-twin-compared',
     'cell:nl=newton', 'cell:nl=newton-armijo', 'cell:nl=newton-bounds', 'cell:nl=newton-subsolve',
-    'cell:nl=broyden', 'cell:nl=nlbgs', 'cell:nl=nlbgs-aitken', 'cell:nl=nlbgs-apply', 'cell:nl=nlbj',
+    'cell:nl=broyden', 'cell:nl=nlbgs', 'cell:nl=nlbgs-aitken', 'cell:nl=nlbgs-apply', 'cell:nl=nlbgs-aitken-apply', 'cell:nl=nlbj',
     'cell:ln=runonce', 'cell:ln=direct-dict', 'cell:ln=direct-dense', 'cell:ln=direct-csc', 'cell:ln=krylov',
     'cell:ln=lnbgs', 'cell:ln=lnbj',
     'cell:mode=fwd', 'cell:mode=rev',
@@ -100,6 +100,7 @@ NLV = {
     'nlbgs': {'type': 'nlbgs', 'use_aitken': False, 'use_apply_nonlinear': False},
     'nlbgs-aitken': {'type': 'nlbgs', 'use_aitken': True, 'use_apply_nonlinear': False},
     'nlbgs-apply': {'type': 'nlbgs', 'use_aitken': False, 'use_apply_nonlinear': True},
+    'nlbgs-aitken-apply': {'type': 'nlbgs', 'use_aitken': True, 'use_apply_nonlinear': True},
     'nlbj': {'type': 'nlbj'},
 }
 LNV = {
@@ -420,7 +421,11 @@ def cell_names(spec_cell, nlv, lnv):
             nl = 'newton-subsolve' if g.get('solve_subsystems') else \
                 ('newton-' + g['linesearch'] if g.get('linesearch') else 'newton')
         elif nl == 'nlbgs':
-            nl = 'nlbgs-aitken' if g.get('use_aitken') else ('nlbgs-apply' if g.get('use_apply_nonlinear') else 'nlbgs')
+            if g.get('use_aitken') and g.get('use_apply_nonlinear'):
+                nl = 'nlbgs-aitken-apply'
+            else:
+                nl = 'nlbgs-aitken' if g.get('use_aitken') else \
+                    ('nlbgs-apply' if g.get('use_apply_nonlinear') else 'nlbgs')
     ln = lnv
     if lnv == 'generated':
         g = t['ln']
